@@ -69,6 +69,7 @@ func main() {
 			if err == nil {
 				w.Dead = nr.Dead
 				w.NormLog = nr.Log
+				theWorld = w
 				for _, l := range nr.Log {
 					fmt.Println("normalise: " + l)
 				}
